@@ -44,7 +44,7 @@ type c11Case struct {
 	Lens  []int    `json:"lens"`     // concrete length of each abstract symbol
 	Sched []int    `json:"sched"`    // chunk sizes (cycled); 0 = zero-length read
 	WithE bool     `json:"with_err"` // the last data chunk is returned together with the terminal error
-	Pat   int      `json:"pat"`      // what the inner bytes of strings are made of (0 letters, 1 escaped quotes first, 2 escaped quotes last, 3 UTF-8, 4 backslashes)
+	Pat   int      `json:"pat"`      // what the inner bytes of strings are made of (0 letters, 1 escaped quotes first, 2 escaped quotes last, 3 UTF-8, 4 backslashes, 5 literals true/false/null where the lengths fit)
 	Ideal [][3]int `json:"ideal"`    // kind (0 val,1 EOF,2 E,3 ueof,4 syn), start, end in abstract offsets
 	Trace bool     `json:"trace,omitempty"`
 }
@@ -90,9 +90,52 @@ func (r *schedReader) Read(p []byte) (int, error) {
 
 func liftStream(s []string, lens []int, pat int) (data []byte, cum []int) {
 	cum = make([]int, len(s)+1)
+	// pattern 5: a delimited value whose symbols are one byte each and whose length is that of a literal is
+	// lifted to true / null / false (complete, or cut anywhere) instead of a string: literals are delimited
+	// values too (complete exactly at their last byte), parsed by code of their own
+	lit := map[int]byte{}
+	if pat == 5 {
+		for i := 0; i < len(s); i++ {
+			if s[i] != "o" || lens[i] != 1 {
+				continue
+			}
+			j, ok := i+1, true
+			for j < len(s) && s[j] == "x" {
+				ok = ok && lens[j] == 1
+				j++
+			}
+			closed := j < len(s) && s[j] == "c"
+			n := j - i // bytes before the closing one
+			var word string
+			switch {
+			case closed && n == 4:
+				word = "false"
+			case closed && n == 3:
+				word = []string{"true", "null"}[i%2]
+			case !closed && j == len(s) && n <= 4:
+				word = []string{"false", "true", "null"}[(i+n)%3]
+				if n == 4 {
+					word = "false"
+				}
+			}
+			if ok && word != "" {
+				for k := 0; k < n; k++ {
+					lit[i+k] = word[k]
+				}
+				if closed {
+					lit[j] = word[n]
+				}
+			}
+			i = j
+		}
+	}
 	for i, c := range s {
 		cum[i] = len(data)
 		n := lens[i]
+		if b, ok := lit[i]; ok {
+			data = append(data, b)
+			continue
+		}
 		switch c {
 		case "w":
 			for k := 0; k < n; k++ {
@@ -386,8 +429,13 @@ func c11Vector(c *Ctx, raw stdjson.RawMessage) {
 	}
 	ext := func(i int) bool { return v.S[i] == "w" || v.S[i] == "d" || v.S[i] == "x" }
 	tracing := traceSink() && r.intn(100) < tracePct
+	forcePat := -1
 	run := func(lens, sched []int, withE bool, trace bool) {
-		k := c11Case{S: v.S, T: v.T, Lens: lens, Sched: sched, WithE: withE, Ideal: ideal, Trace: trace && tracing, Pat: r.intn(5)}
+		pat := r.intn(6)
+		if forcePat >= 0 {
+			pat = forcePat
+		}
+		k := c11Case{S: v.S, T: v.T, Lens: lens, Sched: sched, WithE: withE, Ideal: ideal, Trace: trace && tracing, Pat: pat}
 		c.Case()
 		ev, hdr := c11Run(c, k)
 		if k.Trace && hdr != "" {
@@ -402,6 +450,12 @@ func c11Vector(c *Ctx, raw stdjson.RawMessage) {
 	run(small, nil, false, true)
 	run(small, []int{1}, false, true)
 	run(small, []int{0, 2, 1, 0, 3}, true, true)
+	// ... and the same with literals where the lengths fit
+	forcePat = 5
+	run(small, nil, false, false)
+	run(small, []int{1}, true, false)
+	run(small, []int{0, 2, 1, 0, 3}, true, false)
+	forcePat = -1
 	c.Sample(map[string]any{"stream": v.S, "term": v.T, "ideal": v.R})
 	// B. a pivot symbol stretched so that it straddles the first buffer boundary (32768) by every small delta
 	var cands []int
